@@ -44,6 +44,12 @@ meta = json.load(open(os.path.join(dst, "meta.json")))
 meta["confirmed_by_main"] = res
 # run my checks against /repo with the patch applied
 rc, o = subprocess.run("git -C /repo status --short", shell=True, stdout=subprocess.PIPE, text=True).returncode, None
+# /repo is about to be modified: wait until no check is reading it, keep others out until it is restored
+import fcntl
+os.makedirs("/verif/work", exist_ok=True)
+_lock = open("/verif/work/repo.lock", "w")
+fcntl.flock(_lock, fcntl.LOCK_EX)
+os.environ["VERIF_REPO_LOCK_HELD"] = "1"
 rcA, oA = sh("git -C /repo apply %s" % os.path.join(out, "patch.diff"), cwd="/verif")
 assert rcA == 0, oA
 det = {}
@@ -55,5 +61,6 @@ try:
         print(c, "DETECTED" if det[c]["detected"] else "missed", det[c]["output"][-2:])
 finally:
     subprocess.run("git -C /repo checkout -- .", shell=True)
+    fcntl.flock(_lock, fcntl.LOCK_UN)
 meta["checks_run"] = det
 json.dump(meta, open(os.path.join(dst, "meta.json"), "w"), indent=1)
